@@ -208,7 +208,13 @@ def run(eng: Engine, ck: Check):
         if gen is not None and isinstance(gen.elt, ast.Call):
             ck.ob('R-C07-MATCHERS', q, x, 'matchers are applied to the item\'s query path', 'get_query_path()' in unparse(gen.elt.args[0]), unparse(gen.elt), construct='matcher input')
     caps = [n for n in walk_local(q.node) if isinstance(n, ast.If) and 'max_results' in unparse(n.test)]
-    ok = len(caps) == 1 and unparse(caps[0].test).replace(' ', '') == 'len(to_keep)>=self._settings.searches.receive.max_results' and isinstance(caps[0].body[0], ast.Break)
+    ok = False
+    if len(caps) == 1:
+        a = cmp_atom(caps[0].test)
+        kept = unparse(a[1].args[0]) if a and isinstance(a[1], ast.Call) and call_name(a[1]) == 'len' and a[1].args else None
+        adds_kept = any(call_name(x) == 'add' and unparse(x.func.value) == kept for x in calls_in(q.node))
+        ok = bool(a) and a[0] == 'ge' and kept is not None and adds_kept and unparse(a[2]).endswith('_settings.searches.receive.max_results') and \
+            isinstance(caps[0].body[0], ast.Break)
     ck.ob('R-C07-MATCHERS', q, q.node, 'the result is capped at max_results before it is split into visible and locked', ok, '', construct='cap')
     if caps:
         c = eng.cfg(q)
